@@ -1,6 +1,6 @@
 (* f128 public operations against integer arithmetic modulo M = 2^128 - 45*2^40 + 1
    (generated terms from Gen/F128.v).  Elements are canonical: the value map is the identity. *)
-From Coq Require Import Zpow_facts.
+From Coq Require Import Zpow_facts ZArith Lia Bool.
 From VBase Require Import MachInt ZpOps.
 From VGen Require Import F128.
 From VProofs Require Import F128Limbs.
@@ -12,47 +12,31 @@ Lemma M_pos : 0 < M. Proof. reflexivity. Qed.
 Lemma repr128_mod x : repr128 (x mod M). Proof. apply Z.mod_pos_bound, M_pos. Qed.
 
 (* ------------------------------------------------------------------ add / sub / neg / new *)
+(* shape-independent proofs: every comparison is case-split, every wrap becomes a `mod` with a literal modulus, the rest
+   is linear arithmetic; they survive a reordering of branches or operands in the Rust source (seeded/harmless/H6) *)
+Ltac split_cmp :=
+  repeat match goal with
+  | |- context[Z.ltb ?x ?y] => destruct (Z.ltb_spec x y)
+  | |- context[Z.leb ?x ?y] => destruct (Z.leb_spec x y)
+  | |- context[Z.eqb ?x ?y] => destruct (Z.eqb_spec x y)
+  end.
+Ltac f128_lin :=
+  unfold repr128 in *; cbv zeta; rewrite ?Z.geb_leb, ?Z.gtb_ltb; unfold in_u, wrap; rewrite ?M_eq; unfold M in *;
+  change (2 ^ 128) with 340282366920938463463374607431768211456 in *;
+  repeat (split_cmp; cbn [andb negb orb]);
+  try reflexivity; try (Z.div_mod_to_equations; lia).
+
 Theorem f128_add_spec a b : repr128 a -> repr128 b -> f128_add a b = (a + b) mod M.
-Proof.
-  unfold repr128. intros Ha Hb. unfold f128_add, f128_fn_add. cbv zeta. rewrite M_eq.
-  rewrite (wrap_small 128 (M - b)) by (unfold M in *; lia).
-  destruct (Z.ltb_spec a (M - b)) as [H|H].
-  - replace (M - (M - b)) with b by ring.
-    rewrite (wrap_small 128 b), (wrap_small 128 (b + a)) by (unfold M in *; lia).
-    symmetry. rewrite Z.add_comm. apply Z.mod_small. lia.
-  - rewrite (wrap_small 128 (a - (M - b))) by (unfold M in *; lia).
-    symmetry. apply (mod_eq _ _ 1); lia.
-Qed.
+Proof. intros Ha Hb. unfold f128_add, f128_fn_add. f128_lin. Qed.
 
 Theorem f128_add_ok_spec a b : repr128 a -> repr128 b -> f128_add_ok a b = true.
-Proof.
-  unfold repr128. intros Ha Hb. unfold f128_add_ok, f128_fn_add_ok. cbv zeta. rewrite M_eq.
-  rewrite (wrap_small 128 (M - b)) by (unfold M in *; lia).
-  destruct (Z.ltb_spec a (M - b)) as [H|H].
-  - replace (M - (M - b)) with b by ring.
-    rewrite (wrap_small 128 b) by (unfold M in *; lia).
-    unfold in_u. repeat (apply andb_true_iff; split); unfold M in *; lia.
-  - unfold in_u. repeat (apply andb_true_iff; split); unfold M in *; lia.
-Qed.
+Proof. intros Ha Hb. unfold f128_add_ok, f128_fn_add_ok. f128_lin. Qed.
 
 Theorem f128_sub_spec a b : repr128 a -> repr128 b -> f128_sub a b = (a - b) mod M.
-Proof.
-  unfold repr128. intros Ha Hb. unfold f128_sub, f128_fn_sub. rewrite M_eq.
-  destruct (Z.ltb_spec a b) as [H|H].
-  - rewrite (wrap_small 128 (M - b)), (wrap_small 128 (M - b + a)) by (unfold M in *; lia).
-    symmetry. apply (mod_eq _ _ (-1)); lia.
-  - rewrite (wrap_small 128 (a - b)) by (unfold M in *; lia).
-    symmetry. apply Z.mod_small. lia.
-Qed.
+Proof. intros Ha Hb. unfold f128_sub, f128_fn_sub. f128_lin. Qed.
 
 Theorem f128_sub_ok_spec a b : repr128 a -> repr128 b -> f128_sub_ok a b = true.
-Proof.
-  unfold repr128. intros Ha Hb. unfold f128_sub_ok, f128_fn_sub_ok. rewrite M_eq.
-  destruct (Z.ltb_spec a b) as [H|H].
-  - rewrite (wrap_small 128 (M - b)) by (unfold M in *; lia).
-    unfold in_u. repeat (apply andb_true_iff; split); unfold M in *; lia.
-  - unfold in_u. repeat (apply andb_true_iff; split); unfold M in *; lia.
-Qed.
+Proof. intros Ha Hb. unfold f128_sub_ok, f128_fn_sub_ok. f128_lin. Qed.
 
 Theorem f128_neg_spec a : repr128 a -> f128_neg a = (- a) mod M.
 Proof.
